@@ -470,6 +470,9 @@ pub fn gen(tier: &str, seed: u64, out: &mut dyn Write) {
         format!("ml.{}.{}.1", hexs("public.default"), a),
         format!("rl.{}", b),
         format!("ml.{}.{}.1", a, a),
+        // the `entry` API next to the ordinary operations (recorded findings; everything else must still hold)
+        format!("eo.0.{}", b),
+        format!("er.0.{}", a),
     ];
     let max = if tier == "thorough" { 4 } else { 3 };
     for len in 0..=max {
